@@ -93,6 +93,7 @@ class Profile:
     unaligned_pins: bool = False
     rates: bool = False
     day_efforts: bool = True
+    year_end_holidays: bool = False  # global shutdown across New Year when the horizon contains one
     forward_refs: bool = True  # dependencies on tasks that are declared later in the file
     unsched: bool = False  # sprinkle unschedulable leaves: never-working resource, cycles, group allocations
     container_work: bool = False  # containers that carry effort / allocate themselves
@@ -227,6 +228,19 @@ def project_specs(draw, pf: Profile):
             spec.vacations.append(Leave("vacation", s, None))
         else:
             spec.vacations.append(Leave("vacation", s, s + timedelta(days=draw(st.integers(1, 3)))))
+    if pf.year_end_holidays:
+        # a shutdown that straddles New Year, if the horizon contains one
+        for y in range(start.year, start.year + 2):
+            ny = datetime(y + 1, 1, 1)
+            if start < ny < start + timedelta(days=span) and draw(st.booleans()):
+                a = ny - timedelta(days=draw(st.integers(1, 5)))
+                b = ny + timedelta(days=draw(st.integers(1, 6)))
+                if a >= start:
+                    if draw(st.booleans()):
+                        spec.vacations.append(Leave("vacation", a, b))
+                    else:
+                        spec.gleaves.append(Leave("leaves", a, b, ltype="holiday"))
+                break
     if pf.glob_leaves and draw(st.integers(0, 3)) == 0:
         s = _aligned_dt(draw, start, min(span, 10), res_min).replace(hour=0, minute=0)
         e = None if draw(st.booleans()) else s + timedelta(days=draw(st.integers(1, 3)))
